@@ -224,7 +224,9 @@ func (e *Env) intruder(o *tsoOracle, n int, done *int) {
 var _ = harness.NewWorld
 
 func init() {
-	allNem := []string{"crash", "etcd-partition", "lease-revoke", "leader-key-delete", "etcd-leader-move", "clock-jump", "watch-cancel", "net-cut"}
+	// forced lease revocation and third-party deletion of the leader key are outside the fault model of the
+	// TSO properties: an etcd lease only ends by expiry or by its owner revoking it (see DESIGN.md, false alarms)
+	allNem := []string{"crash", "etcd-partition", "etcd-leader-move", "clock-jump", "watch-cancel", "net-cut", "resign"}
 	core.Register(&core.Profile{
 		Property: "C01", Level: "exploration",
 		Modes: []string{"faults", "faultfree", "faults", "faults"},
@@ -234,7 +236,7 @@ func init() {
 		},
 		MaxSteps: 600000, MaxTime: 10 * time.Minute,
 		QuickBudget: 60 * time.Second, ThoroughBudget: 15 * time.Minute,
-		Rule: "one run = 1-3 real PD servers, 2-6 concurrent TSO stream clients (counts 1..2^18), manual reset-ts (accepted / too small / equal / too far), under a seeded schedule and nemesis (crash+restart, etcd partition, lease revoke, leader-key delete, etcd-leader move, wall-clock jumps up to hours, stalls, etcd errors); non-trivial = >1 timestamp granted and (a fault fired or clients overlapped); distinct = distinct (interleaving hash, summary, knobs)",
+		Rule: "one run = 1-3 real PD servers, 2-6 concurrent TSO stream clients (counts 1..2^18), manual reset-ts (accepted / too small / equal / too far), under a seeded schedule and nemesis (crash+restart, etcd partition with natural lease expiry, resign, etcd-leader move, wall-clock jumps up to hours, stalls, etcd errors); non-trivial = >1 timestamp granted and (a fault fired or clients overlapped); distinct = distinct (interleaving hash, summary, knobs)",
 		Real: realE1, Stub: stubE1,
 	})
 	const enumM = 40
